@@ -109,6 +109,13 @@ type C08 struct {
 	Toks   []common.Address
 	Gid    [32]byte
 	SeedOps [][]engine.Op
+	Jail    bool // validator B can be jailed
+}
+
+// in2: B is still bonded and not jailed
+func in2(s *c08State) bool {
+	v := s.Snap.Staking[1]
+	return v.Bonded && !v.Jailed
 }
 
 func NewC08(powers []int64, dPower int64, seeds [][]engine.Op) *C08 {
@@ -225,7 +232,20 @@ func (c *C08) feedback(in *hub.Instance, evm *evmhost.Host, g *c08Ghost, logs []
 }
 
 // refresh: the relayer polls the hub (real queries) and remembers every outgoing tx and confirmation it sees.
-func (c *C08) refresh(in *hub.Instance, g *c08Ghost) {
+func (c *C08) refresh(in *hub.Instance, g *c08Ghost, sts ...*engine.Step) {
+	// a confirmation the hub served once is served for as long as the hub keeps the transaction: a relayer that
+	// collects signatures when it relays (orchestrator/relayer does) depends on it
+	served := func(t *c08Tx, old *c08Tx, now map[string]bool) {
+		if old == nil || len(sts) == 0 {
+			return
+		}
+		for a := range old.Sigs {
+			if !now[a] {
+				c.bad(sts[0], "recorded_confirmation_no_longer_served", map[string]string{"set": "SignerSetTxConfirmations", "batch": "BatchTxConfirmations"}[t.Kind],
+					"%s is still stored by the hub and the confirmation of %s was served earlier; the confirmations query no longer lists it", t.id(), a)
+			}
+		}
+	}
 	ctx := in.Ctx()
 	w := sdk.WrapSDKContext(ctx)
 	if r, err := in.Hub.SignerSetTxs(w, &mhubtypes.SignerSetTxsRequest{ChainId: "ethereum"}); err == nil {
@@ -237,11 +257,14 @@ func (c *C08) refresh(in *hub.Instance, g *c08Ghost) {
 			if old := g.Cache[t.id()]; old != nil {
 				t.Sigs = old.Sigs
 			}
+			now := map[string]bool{}
 			if cr, err := in.Hub.SignerSetTxConfirmations(w, &mhubtypes.SignerSetTxConfirmationsRequest{SignerSetNonce: ss.Nonce, ChainId: "ethereum"}); err == nil {
 				for _, s := range cr.Signatures {
 					t.Sigs[common.HexToAddress(s.ExternalSigner).Hex()] = hex.EncodeToString(s.Signature)
+					now[common.HexToAddress(s.ExternalSigner).Hex()] = true
 				}
 			}
+			served(t, g.Cache[t.id()], now)
 			g.Cache[t.id()] = t
 		}
 	}
@@ -254,11 +277,14 @@ func (c *C08) refresh(in *hub.Instance, g *c08Ghost) {
 			if old := g.Cache[t.id()]; old != nil {
 				t.Sigs = old.Sigs
 			}
+			now := map[string]bool{}
 			if cr, err := in.Hub.BatchTxConfirmations(w, &mhubtypes.BatchTxConfirmationsRequest{BatchNonce: b.BatchNonce, ExternalTokenId: b.ExternalTokenId, ChainId: "ethereum"}); err == nil {
 				for _, s := range cr.Signatures {
 					t.Sigs[common.HexToAddress(s.ExternalSigner).Hex()] = hex.EncodeToString(s.Signature)
+					now[common.HexToAddress(s.ExternalSigner).Hex()] = true
 				}
 			}
+			served(t, g.Cache[t.id()], now)
 			g.Cache[t.id()] = t
 		}
 	}
@@ -405,6 +431,9 @@ func (c *C08) Ops(st engine.State) []engine.Op {
 	if !g.DBonded {
 		ops = append(ops, engine.OpN("BondKeyless"))
 	}
+	if c.Jail && in2(s) {
+		ops = append(ops, engine.OpN("Jail", 1))
+	}
 	ops = append(ops, engine.OpN("EthAdvance"))
 	return ops
 }
@@ -439,7 +468,7 @@ func (c *C08) do(in *hub.Instance, evm *evmhost.Host, g *c08Ghost, op engine.Op,
 			return
 		}
 		g.Voted = false
-		c.refresh(in, g)
+		c.refresh(in, g, st)
 		if voted {
 			c.inStep(in, evm, g, st)
 		}
@@ -449,7 +478,7 @@ func (c *C08) do(in *hub.Instance, evm *evmhost.Host, g *c08Ghost, op engine.Op,
 		for _, v := range c.bondedKeyed(in) {
 			n += c.confirm(in, v, st)
 		}
-		c.refresh(in, g)
+		c.refresh(in, g, st)
 		st.Obs = fmt.Sprint("confirmed", n)
 	case "Confirm":
 		v := c.Vals[op.I[0]]
@@ -457,11 +486,15 @@ func (c *C08) do(in *hub.Instance, evm *evmhost.Host, g *c08Ghost, op engine.Op,
 		if in.Staking.Vals[op.I[0]].Bonded {
 			n = c.confirm(in, v, st)
 		}
-		c.refresh(in, g)
+		c.refresh(in, g, st)
 		st.Obs = fmt.Sprint("confirmed", n)
 	case "SetPower":
 		in.ValSetPower(int(op.I[0]), op.I[1])
 		st.Obs = "power"
+	case "Jail":
+		// B is jailed (downtime): it leaves the bonded set at this block's staking EndBlocker; what it confirmed stays
+		in.ValJail(int(op.I[0]))
+		st.Obs = "jailed"
 	case "BondKeyless":
 		in.ValRebond(3)
 		g.DBonded = true
@@ -710,14 +743,17 @@ func init() {
 			d, dl = 5, 8*time.Minute
 		}
 		mk := func(p []int64, dp int64, seeds ...[]engine.Op) *C08 { return NewC08(p, dp, seeds) }
+		jail := mk([]int64{10, 10, 10}, 20, c08SeedBatches, c08SeedSets)
+		jail.Jail = true
 		scs := []engine.Scenario{
+			jail,
 			mk([]int64{10, 10, 10}, 20, []engine.Op{}),
 			mk([]int64{10, 10, 10}, 20, c08SeedBatches),
 			mk([]int64{10, 10, 10}, 20, c08SeedKeyless),
 			mk([]int64{50, 30, 20}, 20, c08SeedSets),
 			mk([]int64{25, 25, 50}, 60, c08SeedBatches),
 		}
-		names := []string{"powers [10 10 10] from deployment", "powers [10 10 10] from two confirmed batches of different tokens", "powers [10 10 10] after a keyless validator with 40% bonded",
+		names := []string{"powers [10 10 10], validator B can be jailed, from two confirmed batches / a partly confirmed signer-set update", "powers [10 10 10] from deployment", "powers [10 10 10] from two confirmed batches of different tokens", "powers [10 10 10] after a keyless validator with 40% bonded",
 			"powers [50 30 20] from a partly confirmed signer-set update", "powers [25 25 50] (tie) from two confirmed batches"}
 		var cfgs []engine.Config
 		for range scs {
